@@ -130,20 +130,6 @@ theorem eqv_symm {α} {R S : α → α → Prop} (hRS : ∀ a b, R a b → S b a
   obtain ⟨m', hp', h2'⟩ := f2_perm hp.symm l' h2
   exact ⟨m', hp', f2_flip hRS h2'⟩
 
-theorem nodup_uniq {α} {name : α → String} {l : List α} (h : (l.map name).Nodup) : UniqN name l := by
-  induction l with
-  | nil => intro x hx; cases hx
-  | cons a l ih =>
-    simp only [List.map_cons, List.nodup_cons] at h
-    intro x hx
-    rcases List.mem_cons.mp hx with rfl | hx
-    · simp [List.find?_cons]
-    · have hne : (name a == name x) = false := by
-        have : name a ≠ name x := fun e => h.1 (e ▸ List.mem_map.mpr ⟨x, hx, rfl⟩)
-        simpa using this
-      simp only [List.find?_cons, hne]
-      exact ih h.2 x hx
-
 theorem lastNamed_eq_find {α} {name : α → String} {l : List α} (h : (l.map name).Nodup) (n : String) :
     lastNamed name l n = l.find? (fun x => name x == n) := by
   unfold lastNamed
